@@ -345,6 +345,8 @@ DEFAULT_PROFILE = dict(
     p_ts_bytes_default=0.0,     # K16: emitted as str, refused by the runtime
     p_multi_pos_custom=0.0,     # K8
     p_three_part_field_ref=0.0,  # K22 (swift/objc _docf)
+    p_default_via_foreign_alias=0.0,  # tag default on a field typed by a foreign alias of a union
+    p_cfg_ts_bytes_attr=0.0,     # Timestamp / Bytes route attributes in stone_cfg.Route
     p_linebreak_literal=0.0,     # string literals ending in a line break / holding line separators
     p_shared_anntype_name=0.0,   # an annotation type named like one of another namespace
     p_odd_alias_name=0.0,        # alias names not in canonical Pascal case
@@ -910,6 +912,40 @@ class Gen:
         t = self.type_expr(ns)
         fname = self.fresh_member_name((owner.ns, owner.name), self.field_pool)
         default = None
+        if self.p['p_default_via_foreign_alias'] and self.rnd.random() < self.p['p_default_via_foreign_alias']:
+            # a tag default on a field typed by an alias, of another namespace, of a union
+            cands = []
+            for n in ns.imports:
+                for d in self.m.ns(n).defs:
+                    if d.kind == 'alias':
+                        rt, nullable = self.m.resolve_alias(ref(d.ns, d.name))
+                        if rt.kind == 'ref' and not nullable:
+                            u = self.m.lookup(rt.ns, rt.name)
+                            if u.kind == 'union' and [x for x in self.void_tags(u) if x != 'other']:
+                                cands.append((d, u))
+            if not cands:
+                # none yet: give an imported namespace an alias of a union it can see
+                # (preferably one of a third namespace)
+                for n in ns.imports:
+                    nsd = self.m.ns(n)
+                    us = [u for n2 in [x for x in nsd.imports if x != ns.name] + [n]
+                          for u in self.m.ns(n2).defs
+                          if u.kind == 'union' and [x for x in self.void_tags(u) if x != 'other']]
+                    if us:
+                        u = us[0] if us[0].ns != n else self.rnd.choice(us)
+                        d = AliasDef(name='%sVia%d' % (self.type_name(), self._n()), ns=n, doc=None,
+                                     type=ref(u.ns, u.name), anns=[])
+                        nsd.defs.append(d)
+                        self.m.feature('alias')
+                        cands.append((d, u))
+                        break
+            if cands:
+                d, u = self.rnd.choice(cands)
+                t = ref(d.ns, d.name)
+                default = ('tag', self.rnd.choice([x for x in self.void_tags(u) if x != 'other']))
+                self.m.feature('tag_default_via_foreign_alias' + ('_third_ns' if u.ns != d.ns else ''))
+                f = FieldDef(name=fname, type=t, default=default, doc=None, anns=[])
+                return f
         if self.chance('p_default'):
             default = self.default_for(t)
             if default:
@@ -1100,8 +1136,13 @@ class Gen:
             ]
         else:
             for _ in range(r.randint(1, 5)):
-                pt = self.prim_type(allow=('int', 'float', 'string', 'bool', 'string'))
+                allow = ('int', 'float', 'string', 'bool', 'string')
+                if self.p['p_cfg_ts_bytes_attr'] and r.random() < self.p['p_cfg_ts_bytes_attr']:
+                    allow = ('ts', 'bytes')      # attribute values become datetime / bytes objects
+                pt = self.prim_type(allow=allow)
                 mode = r.choice(['req', 'default', 'nullable'])
+                if allow == ('ts', 'bytes') and mode == 'default':
+                    mode = 'nullable'            # (defaults of these types are a recorded finding)
                 dflt = None
                 if mode == 'nullable':
                     pt = pt.copy(nullable=True)
